@@ -1638,11 +1638,47 @@ class Models:
 
         M[isinstance] = m_isinstance
 
+        def _quantified(ex, sm, st, node, want_all):
+            """any(...) / all(...) over an element-wise abstraction of a symbolic sequence: a quantified formula over the
+            index j of the underlying sequence (elements that are filtered out do not count)."""
+            from .abstractions import SymMapped
+
+            root = sm.root() if isinstance(sm.base, SymMapped) else sm.base
+            if isinstance(root, SSeq):
+                n = z3.Length(root.t)
+            elif getattr(root, "n", None) is not None:
+                n = V.z3int(root.n)
+            else:
+                ex.unsupported(node, "any/all over a symbolic collection without a length")
+            j = z3.Int(fresh_name("j") + "!q")
+            elem = self.seq_elem(root, j)
+            base = st.fork()
+            n0 = len(base.pc)
+            holds = []
+            for s1, kind, val in sm.elementwise(ex, elem, base):
+                if kind == "raise":
+                    ex.unsupported(node, "any/all over elements whose evaluation may raise")
+                extra = z3.And(*s1.pc[n0:]) if len(s1.pc) > n0 else z3.BoolVal(True)
+                if kind == "keep":
+                    t = V.to_z3_bool(v_truthy(val))
+                    holds.append(z3.And(extra, t if not want_all else z3.Not(t)))
+            body = z3.And(j >= 0, j < n, z3.Or(*holds) if holds else z3.BoolVal(False))
+            f = z3.Exists([j], body)
+            return SBool(z3.Not(f) if want_all else f)
+
         def m_any(ex, args, kwargs, st, node):
+            from .abstractions import SymMapped
+
+            if isinstance(args[0], SymMapped):
+                return [Val(_quantified(ex, args[0], st, node, False), st)]
             items = self.iter_concrete(ex, args[0], node)
             return [Val(V._wrapb(b_or(*[v_truthy(x) for x in items])), st)]
 
         def m_all(ex, args, kwargs, st, node):
+            from .abstractions import SymMapped
+
+            if isinstance(args[0], SymMapped):
+                return [Val(_quantified(ex, args[0], st, node, True), st)]
             items = self.iter_concrete(ex, args[0], node)
             return [Val(V._wrapb(b_and(*[v_truthy(x) for x in items])), st)]
 
